@@ -52,15 +52,15 @@ def base_spec(rng):
         "ny": ny, "nx": nx, "flx_seed": rng.randrange(1000),
         "nz": nz, "z0": rng.choice([0.05, 0.1, 0.3]), "zm": rng.choice([3.0, 4.0, 6.0]),
         "z_scale": 1.0,
-        "prof": kind, "U": rng.choice([1.5, 2.0, 3.0]), "V": rng.choice([-1.0, 0.0, 0.5, 1.0]),
+        "prof": kind, "U": rng.choice([1.5, 2.0, 3.0, -2.0]), "V": rng.choice([-1.0, 0.0, 0.5, 1.0]),
         "K": rng.choice([0.5, 1.0, 1.5]),
         "prof_scale": [1.0, 1.0, 1.0, 1.0, 1.0],
         "domain": [xmax, ymax],
         "levels": rng.choice([nz - 1, nz - 2, 1, [1, nz - 1], [0, 2, nz - 1], list(range(nz))] + ([[1, 12], [1, 12]] if nz == 13 else [])),
         "prof_elem": None, "z_elem": None, "repr": None,
         "modes": rng.choice([[4, 4], [6, 4], [8, 8], [8, 6]]),
-        "meas_pt": [rng.choice([0.0, 10.0, 33.0]), rng.choice([0.0, 5.0, 21.0])],
-        "bg": rng.choice([0.0, 0.0, 2.5]),
+        "meas_pt": [rng.choice([0.0, 10.0, 33.0, -15.0, 250.0]), rng.choice([0.0, 5.0, 21.0, -0.0])],
+        "bg": rng.choice([0.0, 0.0, 2.5, 0.0, 2.5, 1e12]),
         "footprint": True,
         "analytic": rng.random() < 0.15,
         "halo": rng.choice([None, None, 20.0, 35.0, "resolved"]),
